@@ -212,7 +212,8 @@ class C04(PropCheck):
                 vals = f['detail']['meta'].get('values')
                 if vals and len(vals) <= 5:
                     seqs.insert(0, vals)
-        for values in seqs[:260]:
+        seqs.sort(key=len)
+        for values in seqs[:400]:
             for k in range(len(values) + 1):
                 run.search_stats['evaluations'] += 1
                 try:
